@@ -720,6 +720,23 @@ def walk_events(evs):
             yield from walk_events(e[4])
 
 
+def optional_sites(bodies):
+    """{optional module: [modules of the tree that try to import it]}: `import X [as y]` of a non-ioflo top-level
+    module directly inside a `try` that has handlers (whatever they catch: that is the point of the check)"""
+    out = {}
+    for m in sorted(bodies):
+        for e in walk_events(bodies[m]):
+            if e[0] == "try" and e[2]:
+                for x in e[1]:
+                    if x[0] == "imp" and not (x[2] == "ioflo" or x[2].startswith("ioflo.")):
+                        top = x[2].partition(".")[0]
+                        if top not in sys.builtin_module_names:
+                            out.setdefault(top, [])
+                            if m not in out[top]:
+                                out[top].append(m)
+    return out
+
+
 STD_STREAMS = ("stdout", "stderr", "stdin")
 
 
@@ -774,6 +791,7 @@ def build(repo):
             dynamic.append(m)
     domain = sorted(m for m in mods if mods[m]["path"] is not None)
     std_uses = std_stream_uses(mods, bodies)
+    optional = optional_sites(bodies)
 
     def is_ioflo(name):
         return name == "ioflo" or name.startswith("ioflo.")
@@ -944,6 +962,7 @@ def build(repo):
     return {"nodes": graph_nodes, "domain": domain, "preloaded": preloaded, "idents": sorted(idents),
             "builtins": [b for b in base["builtins"] if b in idents], "notes": sorted(set(notes)),
             "dynamic": dynamic, "std_stream_uses": std_uses,
+            "optional": {x: {"modules": ms, "exists": graph_nodes[x]["exists"]} for x, ms in sorted(optional.items())},
             "python": sys.version.split()[0]}
 
 
@@ -1105,7 +1124,8 @@ def lean_text(g):
     out.append("def nodes : List (List Node) := %s" % L("c%d" % c for c in range(nchunks)))
     bset = set(g["builtins"])
     out.append("def graph : Graph := { nodes := nodes, chunk := %d, nNodes := %d, preloaded := %s, builtins := %d, "
-               "nMN := %d, nRel := %d, nHi := %d, publicLo := %d, publicHi := %d, pathName := %d, allName := %d, domain := %s }" % (
+               "nMN := %d, nRel := %d, nHi := %d, publicLo := %d, publicHi := %d, pathName := %d, allName := %d, domain := %s, "
+               "override := none }" % (
                    CH, len(names), L(str(nid[m]) for m in sorted(g["preloaded"], key=lambda m: nid[m])),
                    mask(lambda s_: s_ in bset, 0, len(idents)), n_mn, n_rel, len(idents) - n_rel,
                    mask(lambda s_: not s_.startswith("_"), 0, n_rel), mask(lambda s_: not s_.startswith("_"), n_rel, len(idents)),
@@ -1157,6 +1177,11 @@ def lean_text(g):
     o2 = sorted(g["domain"], key=lambda m: m[::-1])
     out.append("/-- two further total orders of the domain: by the sha1 of the name, by the reversed name -/")
     out.append("def sweepOrders : List (List Mod) := %s" % L(L(str(nid[m]) for m in o) for o in (o1, o2)))
+    opt = sorted(g.get("optional", {}).items())
+    out.append("/-- optional third-party modules: `import X` inside a `try` with handlers; with the modules of the tree that "
+               "try to import them; in 4 chunks -/")
+    out.append("def optChunks : List (List (Mod × List Mod)) := %s" % L(
+        L("(%d, %s)" % (nid[x], L(str(nid[m]) for m in d["modules"])) for x, d in opt[c::4]) for c in range(4)))
     out.append("/-- the top-level package of the tree under test -/")
     out.append("def root : Mod := %d" % nid["ioflo"])
     out.append("namespace Mid")
